@@ -15,7 +15,7 @@ pub static DEF: PropDef = PropDef {
     id: "C28",
     level: "model_checking",
     engine: "sweep",
-    rule: "every body (sequence of instructions) of length <= L over the 8-symbol menu {X 0, MOVE r 1, LABEL @a, LABEL @b, JUMP @a, JUMP-WHEN @a r, JUMP-UNLESS @b r, HALT}; a state is a body prefix, a transition appends one instruction; non-trivial = body whose CFG has >= 2 blocks (distinct by body text)",
+    rule: "every body (sequence of instructions) of length <= 6 (thorough 8) over the 8-symbol menu {X 0, MOVE r 1, LABEL @a, LABEL @b, JUMP @a, JUMP-WHEN @a r, JUMP-UNLESS @b r, HALT}; a state is a body prefix, a transition appends one instruction; in every state: blocks written back as label + instructions + terminator reproduce the body, each terminator reflects its jump / HALT / fall-through, dynamic control flow iff a conditional jump, each offset = body position of the block's first element and offset-based indices find the block's instructions; non-trivial = body whose CFG has >= 2 blocks (distinct by body text)",
     assumptions: &["reference: blocks are written back as [label] ++ instructions ++ [terminator]; offsets from the running length of that reconstruction"],
     run,
     replay,
